@@ -130,6 +130,7 @@ func TestC04(t *testing.T) {
 			addCollidingDefs(rt, c, f, "required")
 		}
 		cs := caseOf(drawDecodeOptions(rt, c, f), []string{f.RelPath}, files...)
+		countShapes(c, f, cs.Config)
 		jobs := buildJobs(rt, c, f.Root, progRoot, plan, o, cs)
 		for _, j := range jobs {
 			if j.Expect == "reject" {
@@ -186,6 +187,7 @@ func TestC03(t *testing.T) {
 			files = append(files, addSameLocalRefSibling(rt, c, f))
 		}
 		cs := caseOf(drawDecodeOptions(rt, c, f), []string{f.RelPath}, files...)
+		countShapes(c, f, cs.Config)
 		jobs := buildJobs(rt, c, f.Root, progRoot, plan, o, cs)
 		// explicit nulls at every nullable position of an all-present document
 		oo := *o
@@ -306,6 +308,7 @@ func TestC02(t *testing.T) {
 		f := genStructural(rt, c, prof)
 		addOptionalDefaults(rt, c, f, 0.15, o)
 		cs := caseOf(drawDecodeOptions(rt, c, f), []string{f.RelPath}, f)
+		countShapes(c, f, cs.Config)
 		jobs := buildJobs(rt, c, f.Root, progRoot, plan, o, cs)
 		c.Sample(sampleOf(cs, jobs))
 		return &RunCase{Case: cs, Jobs: jobs, Model: modelIfSingle(cs, f)}
